@@ -1,5 +1,5 @@
 SPECIFICATION Spec
-CONSTANTS Mode = "energy"  Variant = "ok"  Family = "list"  List = { 1090312, 1021013, 2130406, 3081203 }  Steps = 1  PairMod = 1
+CONSTANTS Mode = "energy"  Variant = "ok"  Family = "list"  List = { 1021013, 3081203 }  Steps = 1  PairMod = 1
           Extra = { 1000 }
 INVARIANT TypeOK
 INVARIANT WallsHold
